@@ -35,7 +35,7 @@ var opKinds = []string{
 	"own", "own", "own",
 	"timeout", "timeout", "timeout",
 	"fair", "fair",
-	"byzvote", "byzvote", "byzprop", "split",
+	"byzvote", "byzvote", "byzclaim", "byzprop", "split",
 	"dup", "drop", "drop", "crashrestart", "crash", "restart", "sync", "stalepolka", "lateproposal",
 }
 
